@@ -60,7 +60,8 @@ class Variables:
 
     def inline_variables(self, sql: str) -> str:
         for name, value in self._variables.items():
-            sql = re.sub(rf"\${name}", value, sql, flags=re.IGNORECASE)
+            # match the whole name only (not a prefix of a longer name) and insert the value verbatim
+            sql = re.sub(rf"\${re.escape(name)}(?!\w)", lambda _m, v=value: v, sql, flags=re.IGNORECASE)
 
         if remaining_variables := re.search(r"(?<!\$)\$\w+", sql):
             raise snowflake.connector.errors.ProgrammingError(
